@@ -807,7 +807,10 @@ def gen_pair_equal(rng, noise=True):
     elif r_ < 0.4 and G.make_interface(rng, M):
         flavour.append("discontinuous")          # (coincident points along an internal interface, several cells per copy)
         flavour.append("interface")
-    N, perm, cperms = G.relabel(rng, M)
+    rot = rng.random() < 0.3          # cells listed from another start corner on one side
+    N, perm, cperms = G.relabel(rng, M, rotate=rot)
+    if rot:
+        flavour.append("rotated_corners")
     if rng.random() < 0.35:
         G.add_orphans(rng, M)
         flavour.append("orphans_src")
@@ -869,7 +872,8 @@ def run_c02(ctx):
         if it % 3 == 0:
             stage_batch.append((canon, stage_exprs(stages)))
         # canonical sorting: identical sorted representations in the absence of noise
-        if eps == 0 and not G.has_coincident_points(M):
+        if eps == 0 and not G.has_coincident_points(M) and "rotated_corners" not in flavour:
+            # (sorting brings points, cells and type blocks into one order; it does not choose a start corner within a cell)
             try:
                 with quiet():
                     warnings.simplefilter("ignore")
@@ -1178,6 +1182,7 @@ def run_c03(ctx):
     nonfinite_entry_stream(ctx, 80 if q else 2000)
     exact_mesh_tolerance_stream(ctx, 60 if q else 1500)
     flat_direction_stream(ctx, 40 if q else 1000)
+    shared_predicate_selector_stream(ctx, 40 if q else 1000)
     run_stage_batch(ctx, stage_batch)
     run_ladder_batch(ctx, ladder_batch)
     ctx.rule = ("meshes as in C02 with exactly one single-site modification on one side (move a point along one axis by 16..1e6 "
@@ -1381,6 +1386,49 @@ def flat_direction_stream(ctx, n):
         if res[0]["bool"] or res[1]["bool"] or res[2] or res[3]:
             ctx.violation("E4", f"image grids with extents {ea} and {eb} (flat in different directions) compare as equal", canon,
                           impl=[res[0]["bool"], res[1]["bool"], res[2], res[3]])
+        ctx.traces_validated += 1
+
+
+def shared_predicate_selector_stream(ctx, n):
+    """a predicate selector that hands ONE predicate object (tolerances derived from the data: default relative tolerance, scaled
+    absolute tolerance) to every field of the data set: a field of magnitude 1e5 is compared first, then a field of magnitude 1
+    with one entry off by 1e-3 — beyond its own tolerance, inside the large field's — the comparison must fail"""
+    from fieldcompare.predicates import FuzzyEquality, ScaledTolerance
+    rng = ctx.rng
+    for it in range(n):
+        M = G.gen_mesh(rng, max_cells=4)
+        npts = len(M["pts"])
+        big = np.array([1.0e5 + 8.0 * rng.randint(0, 9) for _ in range(npts)])
+        small = np.array([1.0 + rng.randint(0, 8) / 8.0 for _ in range(npts)])
+        off = small.copy()
+        i = rng.randrange(npts)
+        off[i] += 1.0e-3
+        deviates = rng.random() < 0.7
+        pred = FuzzyEquality(abs_tol=ScaledTolerance(1.0e-6), rel_tol=0.0)
+        reorder = rng.random() < 0.5
+        N = G.copy_mesh(M)
+        extra_n = {"a_pressure": big.copy(), "b_saturation": off if deviates else small.copy()}
+        if reorder:
+            N, perm, _ = G.relabel(rng, N)
+            extra_n = {k: v[perm] for k, v in extra_n.items()}
+        canon = {"kind": "shared_predicate_selector", "mesh": json_mesh(M), "entry": i, "deviates": deviates, "reordered": reorder}
+        try:
+            with quiet():
+                warnings.simplefilter("ignore")
+                fm = G.to_fieldcompare(M, extra_point={"a_pressure": big, "b_saturation": small})
+                fn = G.to_fieldcompare(N, extra_point=extra_n)
+                res = compare_impl(fn, fm, predicate_selector=lambda _s, _r: pred)
+        except Exception as e:  # noqa: BLE001
+            if "duplicate" in str(e):
+                continue
+            ctx.violation("E4", f"comparison raised {type(e).__name__}: {e}", canon)
+            continue
+        ctx.case(canon, deviates, sample={"case": {k: canon[k] for k in ("entry", "deviates", "reordered")}, "impl": res})
+        ctx.count(f"c03:one predicate object for all fields:{'deviating' if deviates else 'equal'}")
+        if res["bool"] == deviates:
+            ctx.violation("E4", "one predicate object (scaled tolerance) handed to every field: the comparison "
+                                + ("PASSES although a field of magnitude 1 deviates by 1e-3 (allowed: 2e-6)" if deviates else "fails for equal data"),
+                          canon, impl=res)
         ctx.traces_validated += 1
 
 
